@@ -368,6 +368,52 @@ Example c15_ex_validate_compact :
   entry_run_valid JwtEncodeJws c [[[(asc "alg", PStr (asc "HS256"))]]] = Ok tt.
 Proof. exact ex_validate_compact. Qed.
 
+(* ---------- 9. re-used objects: the check is on the CURRENT header ----------
+   A JWE JSON object (model/C15Cases.v: jwe_obj) may be edited between
+   operations: obj.protected / obj.unprotected / recipient.header in place, by
+   rebinding, with add_header, with add_recipient ([edit], [apply_edit]); a
+   history is a fold of edits.  encrypt_json merges the fields at call time, so
+   after any history: a normal return means the CURRENT merged header of every
+   recipient satisfies the spec, a violating current header makes it fail, the
+   verdict is the one a fresh object in the final state gets, and it depends
+   on the final state only.  That /repo reads the current fields (no stale
+   merged header) is validated by the history scenarios of the differential. *)
+Theorem c15_check_is_on_current_header : forall pre step verify post d c o edits,
+  (encrypt_json_history pre step verify post d c o edits = Ok tt ->
+   forall parts, In parts (obj_members (final_state o edits)) ->
+     run_spec (RJwe d) c false (merge_parts parts) = true) /\
+  (forall parts, In parts (obj_members (final_state o edits)) ->
+     run_spec (RJwe d) c false (merge_parts parts) = false ->
+     exists x, encrypt_json_history pre step verify post d c o edits = Err x) /\
+  encrypt_json_history pre step verify post d c o edits =
+    encrypt_json_obj pre step verify post d c (final_state o edits).
+Proof.
+  exact (fun pre step verify post d c o es =>
+           conj (history_checks pre step verify post d c o es)
+                (conj (fun parts => history_rejects pre step verify post d c o es parts)
+                      (history_is_fresh pre step verify post d c o es))).
+Qed.
+
+Theorem c15_history_final_state_only : forall pre step verify post d c o1 edits1 o2 edits2,
+  final_state o1 edits1 = final_state o2 edits2 ->
+  encrypt_json_history pre step verify post d c o1 edits1 =
+  encrypt_json_history pre step verify post d c o2 edits2.
+Proof. exact history_final_only. Qed.
+
+Example c15_ex_history :
+  let c := default_cfg (RJwe false) in
+  let o := {| o_protected := [(asc "enc", PStr (asc "A128GCM"))]; o_unprotected := None;
+              o_recipients := [Some [(asc "alg", PStr (asc "A128KW"))]] |} in
+  let run := encrypt_json_history (Ok tt) (fun _ => Ok tt) (Ok true) (Ok tt) false c o in
+  run [] = Ok tt /\
+  run [ESetP (asc "bogus") (PInt 1)] = Err EValue /\
+  run [ESetR 0 (asc "kid") (PInt 123)] = Err EValue /\
+  run [ERebindU (Some [(asc "crit", PList [PStr (asc "kid")])])] = Err EValue /\
+  run [ERebindU (Some [(asc "crit", PList [PStr (asc "kid")])]); EAddHeader 0 (asc "kid") (PStr (asc "k"))] = Ok tt /\
+  run [ESetP (asc "bogus") (PInt 1); EDelP (asc "bogus")] = Ok tt /\
+  run [EAddRecipient false (Some [(asc "alg", PInt 1)])] = Err EValue.
+Proof. exact ex_history. Qed.
+
 Print Assumptions c15_spec_meaning.
 Print Assumptions c15_spec_b64_meaning.
 Print Assumptions c15_validators.
@@ -401,3 +447,5 @@ Print Assumptions c15_entry_checks_header.
 Print Assumptions c15_consume_checks_header.
 Print Assumptions c15_validate_compact_checks_header.
 Print Assumptions c15_entry_rejects.
+Print Assumptions c15_check_is_on_current_header.
+Print Assumptions c15_history_final_state_only.
